@@ -28,6 +28,8 @@ type EP struct {
 	Location string `json:"location"`
 	Index    int    `json:"index"`
 	Default  *bool  `json:"is_default,omitempty"`
+	// Response is the optional ResponseLocation attribute (legal on any endpoint, never a response target for an ACS).
+	Response *string `json:"response_location,omitempty"`
 }
 
 // SPMeta is one registry entry.
@@ -67,6 +69,15 @@ type Case struct {
 	Relay       string  `json:"relay,omitempty"`
 
 	Target string `json:"target,omitempty"` // initiated: service provider id
+
+	// Extras: IdP configuration fields no clause mentions (LogoutURL, LoginURL, ValidDuration, form template,
+	// explicit assertion maker, signer / signature method); Base is taken from the case.
+	Extras idpkit.IDPConf `json:"idp_extras"`
+
+	// Then is a second request (or launch) handled by the SAME IdentityProvider value after the registry
+	// content has been replaced by Then.Providers; it is judged against the registry at that moment.
+	// Only Kind, Providers, FaultFor, Target and the request fields of Then are used.
+	Then *Case `json:"then,omitempty"`
 }
 
 const (
@@ -87,7 +98,10 @@ func genEP(t *rapid.T, pool []string) EP {
 	e := EP{
 		Binding:  rapid.SampledFrom(bindings).Draw(t, "binding"),
 		Location: rapid.SampledFrom(pool).Draw(t, "location"),
-		Index:    rapid.SampledFrom([]int{0, 1, 1, 2, 3, 4, 65535, 70000}).Draw(t, "index"),
+		Index:    rapid.SampledFrom([]int{0, 0, 1, 1, 2, 3, 4, 65535, 70000, -1, 2147483647, 4294967297}).Draw(t, "index"),
+	}
+	if rapid.IntRange(0, 3).Draw(t, "responseLocation") == 0 {
+		e.Response = idpkit.P(rapid.SampledFrom(append([]string{"https://status.example.net/saml/return"}, pool...)).Draw(t, "response-location"))
 	}
 	switch rapid.IntRange(0, 3).Draw(t, "isDefault") {
 	case 0:
@@ -155,6 +169,11 @@ func gen(t *rapid.T) Case {
 		Base:    rapid.SampledFrom([]string{"https://idp.example.com", "https://idp.example.com:8443/auth", "http://login.example.org/realms/r1"}).Draw(t, "base"),
 		DelayMs: rapid.SampledFrom([]int64{90000, 90000, 90000, 0, 1, 1000, 7000, 3600000}).Draw(t, "delay"),
 	}
+	c.Extras = idpkit.IDPConf{
+		Signer:    rapid.IntRange(0, 3).Draw(t, "signer") == 0,
+		SigMethod: rapid.SampledFrom(idpkit.RSAMethods).Draw(t, "sigmethod"),
+	}.WithExtras(rapid.Bool().Draw(t, "logoutURL"), rapid.Bool().Draw(t, "loginURL"), rapid.SampledFrom([]int{0, 0, 1, 48, 8760}).Draw(t, "validHours"),
+		rapid.IntRange(0, 3).Draw(t, "template") == 0, rapid.IntRange(0, 3).Draw(t, "maker") == 0)
 	sso := c.Base + "/sso"
 	pool := []string{}
 	for i := 0; i < 5; i++ {
@@ -182,6 +201,9 @@ func gen(t *rapid.T) Case {
 		}
 		if rapid.IntRange(0, 9).Draw(t, "fault") == 0 {
 			c.FaultFor = c.Target
+		}
+		if rapid.IntRange(0, 3).Draw(t, "then") == 0 {
+			c.Then = genThen(t, c, pool)
 		}
 		return c
 	}
@@ -221,10 +243,20 @@ func gen(t *rapid.T) Case {
 	}
 
 	// Destination
-	switch rapid.IntRange(0, 9).Draw(t, "destclass") {
+	switch rapid.IntRange(0, 11).Draw(t, "destclass") {
 	case 0, 1, 2, 3:
 		c.Destination = idpkit.P(sso)
 	case 4, 5, 6:
+	case 10, 11:
+		// another identifier of the same deployment, or of the requesting SP
+		others := idpkit.IDPConf{Base: c.Base}.OtherIdentifiers()
+		if target != nil {
+			others = append(others, target.EntityID)
+			for _, e := range allEPs(*target) {
+				others = append(others, e.Location)
+			}
+		}
+		c.Destination = idpkit.P(rapid.SampledFrom(others).Draw(t, "dest-other-identifier"))
 	case 7:
 		c.Destination = idpkit.P(rapid.SampledFrom([]string{"https://evil.example.net/sso", c.Base + "/metadata", c.Base, "https://idp.example.com/sso2"}).Draw(t, "dest"))
 	case 8:
@@ -298,7 +330,99 @@ func gen(t *rapid.T) Case {
 	default:
 		c.ACSIndex = idpkit.P("")
 	}
+	if rapid.IntRange(0, 3).Draw(t, "then") == 0 {
+		c.Then = genThen(t, c, pool)
+	}
 	return c
+}
+
+func findSP(list []SPMeta, id string) *SPMeta {
+	for i := range list {
+		if list[i].EntityID == id {
+			return &list[i]
+		}
+	}
+	return nil
+}
+
+// genThen draws the second step of a sequence: the registry content is changed
+// (providers dropped, re-registered with other endpoints, added) and the same
+// peer comes back, often naming an endpoint of its FORMER registration.
+func genThen(t *rapid.T, first Case, pool []string) *Case {
+	n := first
+	n.Then = nil
+	n.FaultFor = ""
+	n.Providers = nil
+	for _, sp := range first.Providers {
+		switch rapid.IntRange(0, 3).Draw(t, "then-op") {
+		case 0: // deregistered
+		case 1: // unchanged
+			n.Providers = append(n.Providers, sp)
+		default: // re-registered with other endpoints
+			re := SPMeta{EntityID: sp.EntityID, ViaXML: rapid.Bool().Draw(t, "then-viaXML")}
+			nd := rapid.SampledFrom([]int{0, 1, 1, 2}).Draw(t, "then-ndescs")
+			for d := 0; d < nd; d++ {
+				eps := []EP{}
+				for k := rapid.IntRange(0, 3).Draw(t, "then-nendpoints"); k > 0; k-- {
+					eps = append(eps, genEP(t, pool[:5]))
+				}
+				re.Descs = append(re.Descs, eps)
+			}
+			n.Providers = append(n.Providers, re)
+		}
+	}
+	if rapid.IntRange(0, 4).Draw(t, "then-new-provider") == 0 {
+		n.Providers = append(n.Providers, SPMeta{EntityID: "https://sp7.example.com/saml/metadata", Descs: [][]EP{{genEP(t, pool[:5])}}})
+	}
+	n.Kind = rapid.SampledFrom([]string{first.Kind, first.Kind, "validate", "sso", "initiated"}).Draw(t, "then-kind")
+	peer := first.Target
+	if first.Issuer != nil {
+		peer = *first.Issuer
+	}
+	if n.Kind == "initiated" {
+		n.Target = peer
+		return &n
+	}
+	if first.Kind == "initiated" {
+		// the first step had no request: make a plain valid one
+		n.Method, n.Instant, n.AgeMs, n.Version = "POST", "age", first.DelayMs/2, idpkit.P("2.0")
+		n.Issuer = idpkit.P(peer)
+	}
+	n.ID = idpkit.P("id-" + rapid.StringMatching(`[a-f0-9]{12}`).Draw(t, "then-id"))
+	if rapid.IntRange(0, 3).Draw(t, "then-valid-fields") != 0 {
+		// a request that is valid in every clause but the registry-dependent ones, from a peer that WAS registered
+		if findSP(first.Providers, peer) == nil && len(first.Providers) > 0 {
+			peer = rapid.SampledFrom(first.Providers).Draw(t, "then-peer").EntityID
+		}
+		n.Version, n.Instant, n.AgeMs, n.Destination, n.Issuer = idpkit.P("2.0"), "age", first.DelayMs/2, nil, idpkit.P(peer)
+	}
+	var eps []EP
+	src := rapid.SampledFrom([]string{"former", "former", "current", "none", "same"}).Draw(t, "then-acs-source")
+	switch src {
+	case "former":
+		if sp := findSP(first.Providers, peer); sp != nil {
+			eps = allEPs(*sp)
+		}
+	case "current":
+		if sp := findSP(n.Providers, peer); sp != nil {
+			eps = allEPs(*sp)
+		}
+	case "same":
+		return &n
+	}
+	n.ACSURL, n.ACSIndex = nil, nil
+	if len(eps) > 0 {
+		e := rapid.SampledFrom(eps).Draw(t, "then-endpoint")
+		switch rapid.IntRange(0, 2).Draw(t, "then-by") {
+		case 0:
+			n.ACSURL = idpkit.P(e.Location)
+		case 1:
+			n.ACSIndex = idpkit.P(strconv.Itoa(e.Index))
+		default:
+			n.ACSURL, n.ACSIndex = idpkit.P(e.Location), idpkit.P(strconv.Itoa(e.Index))
+		}
+	}
+	return &n
 }
 
 // ---------------------------------------------------------------- building
@@ -308,6 +432,10 @@ func (e EP) endpoint() saml.IndexedEndpoint {
 	if e.Default != nil {
 		b := *e.Default
 		out.IsDefault = &b
+	}
+	if e.Response != nil {
+		r := *e.Response
+		out.ResponseLocation = &r
 	}
 	return out
 }
@@ -412,7 +540,7 @@ func (c Case) resolvable(md *saml.EntityDescriptor) bool {
 	if (c.ACSIndex != nil && *c.ACSIndex == "") || (c.ACSURL != nil && *c.ACSURL == "") {
 		return false
 	}
-	if c.ACSIndex != nil && idpkit.CanonicalInt.MatchString(*c.ACSIndex) {
+	if c.ACSIndex != nil && idpkit.CanonicalInt.MatchString(*c.ACSIndex) && !strings.HasPrefix(*c.ACSIndex, "-") {
 		for _, e := range reg {
 			if strconv.Itoa(e.Index) == *c.ACSIndex {
 				return true
@@ -480,6 +608,16 @@ func (c Case) classes() []string {
 	}
 	opt("issuer", c.Issuer)
 	opt("destination", c.Destination)
+	if c.Destination != nil {
+		for _, o := range (idpkit.IDPConf{Base: c.Base}).OtherIdentifiers() {
+			if *c.Destination == o {
+				cl = append(cl, "destination:other-identifier-of-the-idp")
+				if o == c.Base+"/slo" && c.Extras.Logout {
+					cl = append(cl, "destination:configured-logout-url")
+				}
+			}
+		}
+	}
 	opt("version", c.Version)
 	opt("acs-url", c.ACSURL)
 	opt("acs-index", c.ACSIndex)
@@ -488,27 +626,71 @@ func (c Case) classes() []string {
 
 func nEndpoints(md *saml.EntityDescriptor) int { return len(idpkit.AllACS(md)) }
 
-func check(c Case) (res pbt.Result) {
-	res.Classes = c.classes()
-	now := fix.Epoch
-	fix.SetNow(now)
-	saml.MaxIssueDelay = time.Duration(c.DelayMs) * time.Millisecond
-
-	reg := &idpkit.Registry{M: map[string]*saml.EntityDescriptor{}, Fault: map[string]error{}}
+// load replaces the registry content (same Registry value, as a live deployment would).
+func load(reg *idpkit.Registry, c Case) bool {
+	for k := range reg.M {
+		delete(reg.M, k)
+	}
+	for k := range reg.Fault {
+		delete(reg.Fault, k)
+	}
 	for _, sp := range c.Providers {
 		md, err := sp.descriptor()
 		if err != nil {
-			// metadata the library itself refuses to parse cannot be registered: outside the domain
-			return pbt.Result{Skip: true}
+			return false
 		}
 		reg.M[sp.EntityID] = md
 	}
 	if c.FaultFor != "" {
 		reg.Fault[c.FaultFor] = errors.New("store: input/output error")
 	}
-	sess := &idpkit.Sessions{S: idpkit.Sess{ID: "s1", Index: "ix1", NameID: "alice-nameid", UserName: "alice", Email: "alice@example.com", Groups: []string{"g1", "g2"}}.Session(now.Add(-time.Minute))}
-	idp := idpkit.IDPConf{Base: c.Base}.Build(reg, sess)
+	return true
+}
 
+func check(c Case) (res pbt.Result) {
+	now := fix.Epoch
+	fix.SetNow(now)
+	saml.MaxIssueDelay = time.Duration(c.DelayMs) * time.Millisecond
+
+	reg := &idpkit.Registry{M: map[string]*saml.EntityDescriptor{}, Fault: map[string]error{}}
+	if !load(reg, c) {
+		// metadata the library itself refuses to parse cannot be registered: outside the domain
+		return pbt.Result{Skip: true}
+	}
+	sess := &idpkit.Sessions{S: idpkit.Sess{ID: "s1", Index: "ix1", NameID: "alice-nameid", UserName: "alice", Email: "alice@example.com", Groups: []string{"g1", "g2"}}.Session(now.Add(-time.Minute))}
+	conf := c.Extras
+	conf.Base = c.Base
+	idp := conf.Build(reg, sess)
+
+	res = c.step(idp, reg, sess, now)
+	if c.Then == nil || res.Err != "" || res.Skip {
+		return res
+	}
+	// second step on the same IdentityProvider value, registry replaced in between
+	n := *c.Then
+	n.Base, n.DelayMs, n.Extras, n.Relay = c.Base, c.DelayMs, c.Extras, c.Relay
+	if !load(reg, n) {
+		return pbt.Result{Skip: true}
+	}
+	sess.Seen = nil
+	idp.Logger.(*idpkit.Quiet).Lines = nil
+	r2 := n.step(idp, reg, sess, now)
+	res.Classes = append(res.Classes, "sequence:two-steps")
+	for _, k := range r2.Classes {
+		if strings.HasPrefix(k, "outcome:") || strings.HasPrefix(k, "select:") || strings.HasPrefix(k, "expect:") {
+			res.Classes = append(res.Classes, "second:"+k)
+		}
+	}
+	res.NonTrivial = true
+	if r2.Err != "" {
+		res.Err = "second step (same IdentityProvider, registry replaced in between): " + r2.Err
+	}
+	return res
+}
+
+// step handles one request or launch and judges it against the registry as it is now.
+func (c Case) step(idp *saml.IdentityProvider, reg *idpkit.Registry, sess *idpkit.Sessions, now time.Time) (res pbt.Result) {
+	res.Classes = c.classes()
 	fail := func(f string, a ...any) pbt.Result {
 		res.Err = fmt.Sprintf(f, a...)
 		res.NonTrivial = true
@@ -660,6 +842,11 @@ func (c Case) checkForm(form *idpkit.Form, sel *saml.IndexedEndpoint, md *saml.E
 		res.Err = fmt.Sprintf(f, a...)
 		res.NonTrivial = true
 		return res
+	}
+	// ground truth from the request and the registry alone, not from what the implementation stored
+	allowed := idpkit.AllowedTargets(md, c.ACSIndex, c.ACSURL, c.Kind == "initiated")
+	if !idpkit.InSet(form.Action, allowed...) {
+		return fail("form action %q is not the Location of a registered HTTP-POST endpoint the request admits (admitted: %q; registered: %s)", form.Action, allowed, idpkit.Keys(idpkit.AllACS(md)))
 	}
 	if form.NForms != 1 {
 		return fail("%d form elements emitted", form.NForms)
@@ -859,11 +1046,80 @@ func enumFields(_ string, emit func(Case)) {
 	}
 }
 
+// enumDestinations: a Destination naming ANOTHER identifier of the same deployment (logout URL, metadata URL,
+// login URL, base) or of the requesting SP, for every combination of LogoutURL / LoginURL being configured.
+func enumDestinations(_ string, emit func(Case)) {
+	sp := SPMeta{EntityID: "https://sp0.example.com/saml/metadata", Descs: [][]EP{{{Binding: post, Location: "https://sp0.example.com/saml/acs", Index: 1}}}}
+	for _, base := range []string{"https://idp.example.com", "https://idp.example.com:8443/auth"} {
+		conf := idpkit.IDPConf{Base: base}
+		dests := append([]string{conf.SSOURL(), sp.EntityID, "https://sp0.example.com/saml/acs"}, conf.OtherIdentifiers()...)
+		for _, logout := range []bool{false, true} {
+			for _, login := range []bool{false, true} {
+				for _, d := range dests {
+					for _, m := range []string{"GET", "POST"} {
+						for _, k := range []string{"validate", "sso"} {
+							emit(Case{Kind: k, Base: base, DelayMs: 90000, Providers: []SPMeta{sp}, Method: m, Instant: "age", AgeMs: 1000,
+								ID: idpkit.P("id-1"), Version: idpkit.P("2.0"), Issuer: idpkit.P(sp.EntityID), Destination: idpkit.P(d),
+								Extras: idpkit.IDPConf{Logout: logout, Login: login}})
+						}
+					}
+				}
+			}
+		}
+	}
+}
+
+// enumSequences: one IdentityProvider value, a first valid request, then the provider is deregistered or
+// re-registered with other endpoints and comes back naming its former or its current endpoint (or nothing).
+func enumSequences(_ string, emit func(Case)) {
+	id := "https://sp0.example.com/saml/metadata"
+	locA, locB := "https://sp0.example.com/saml/acs", "https://sp0.example.com/saml/acs/b"
+	regA := []SPMeta{{EntityID: id, Descs: [][]EP{{{Binding: post, Location: locA, Index: 1, Default: boolp(true)}}}}}
+	afters := [][]SPMeta{
+		{}, // deregistered
+		{{EntityID: id, Descs: [][]EP{{{Binding: post, Location: locB, Index: 2}}}}},
+		{{EntityID: id, Descs: [][]EP{{{Binding: post, Location: locB, Index: 1}}}}},
+		{{EntityID: id, Descs: [][]EP{{{Binding: soap, Location: locA, Index: 1}}}}},
+		{{EntityID: id, ViaXML: true, Descs: [][]EP{{{Binding: post, Location: locB, Index: 0, Response: idpkit.P(locA)}}, {{Binding: redirect, Location: locA, Index: 1, Default: boolp(true)}}}}},
+		{{EntityID: "https://sp1.example.com/saml/metadata", Descs: regA[0].Descs}}, // same endpoints, other entity
+	}
+	base := Case{Base: "https://idp.example.com", DelayMs: 90000, Method: "POST", Instant: "age", AgeMs: 1000, ID: idpkit.P("id-1"), Version: idpkit.P("2.0"), Issuer: idpkit.P(id)}
+	for _, k1 := range []string{"validate", "sso", "initiated"} {
+		for _, after := range afters {
+			for _, k2 := range []string{"validate", "sso", "initiated"} {
+				for r := 0; r < 5; r++ {
+					first := base
+					first.Kind, first.Providers, first.Target = k1, regA, id
+					second := base
+					second.Kind, second.Providers, second.Target, second.ID = k2, after, id, idpkit.P("id-2")
+					switch r {
+					case 1:
+						second.ACSURL = idpkit.P(locA)
+					case 2:
+						second.ACSIndex = idpkit.P("1")
+					case 3:
+						second.ACSURL = idpkit.P(locB)
+					case 4:
+						first.ACSURL, second.ACSURL, second.ACSIndex = idpkit.P(locA), idpkit.P(locA), idpkit.P("1")
+					}
+					if k2 == "initiated" && r > 0 {
+						continue
+					}
+					first.Then = &second
+					emit(first)
+				}
+			}
+		}
+	}
+}
+
 var prop = &pbt.Prop[Case]{
 	ID: "C05",
 	Rule: "cases: AuthnRequests written from a template (Issuer, Destination, Version, IssueInstant, ACS URL, ACS index each present-correct / forged / near-miss / empty / absent; GET-deflate and POST; four namespace styles) " +
 		"against registries of 0-3 providers x 0-3 SPSSODescriptors x 0-4 ACS endpoints (bindings POST/Redirect/Artifact/SOAP/unknown, duplicate indices and locations, isDefault absent/true/false), through NewIdpAuthnRequest+Validate, ServeSSO and ServeIDPInitiated; " +
-		"exhaustive: MaxIssueDelay x age lattice (+-1 ms), two-endpoint selection grid, 3^5 field presence grid. " +
+		"IdP configuration fields no clause mentions are varied (LogoutURL, LoginURL, ValidDuration, form template, explicit assertion maker, Signer, signature method), endpoints may carry ResponseLocation and zero / huge / negative indices, " +
+		"forged Destinations include the other identifiers of the same deployment (logout, metadata, login URL) and of the requesting SP, and a quarter of the cases are two-step sequences on ONE IdentityProvider value with the registry replaced in between (the second step is judged against the registry at that moment); " +
+		"exhaustive: MaxIssueDelay x age lattice (+-1 ms), two-endpoint selection grid, 3^5 field presence grid, destination x LogoutURL/LoginURL grid, re-registration sequences. " +
 		"non-trivial: >=2 registered endpoints and the request names an index or URL; or a field absent/forged/must-reject; or IssueInstant within 1 ms of the limit; IdP-initiated: unknown/faulty provider or >=2 endpoints. distinct: sha256 of the JSON case.",
 	Gen:   gen,
 	Check: check,
@@ -872,6 +1128,8 @@ var prop = &pbt.Prop[Case]{
 		{Name: "freshness-lattice", Each: enumFreshness},
 		{Name: "two-endpoint-selection-grid", Each: enumSelection},
 		{Name: "field-presence-grid", Each: enumFields},
+		{Name: "destination-other-identifiers", Each: enumDestinations},
+		{Name: "re-registration-sequences", Each: enumSequences},
 	},
 	Assumptions: []string{
 		"'fresh' is the one-sided bound (IssueInstant + MaxIssueDelay >= now); future-dated requests and exact equality are not judged",
@@ -880,6 +1138,8 @@ var prop = &pbt.Prop[Case]{
 		"IdP-initiated launches are judged on membership + HTTP-POST binding only (the property does not say isDefault applies there)",
 		"non-vacuity (not part of the property): a request valid under every clause with a certainly resolvable endpoint must be processed",
 		"registry entity IDs are non-empty; a Logger is configured (the handlers dereference it)",
+		"the form target is judged against the set of Locations derived from the request and the registry alone (AllowedTargets), in addition to the endpoint the implementation reports as selected",
+		"negative index spellings are judged by the index rule but carry no non-vacuity obligation (the schema type is unsignedShort)",
 	},
 }
 
